@@ -111,7 +111,58 @@ theorem page_right_of (p r q : Path) (Q : PageId) (hQ : Q <+: specPage (p ++ tru
     rw [← hqp, pidBits_specPage]; exact List.take_prefix _ _
   exact leftOf_of_branch (List.prefix_refl _) (List.IsPrefix.trans hpQ hqQ)
 
-/-! ## the page set of a walk without parent page -/
+/-- slots of a page on the way to `t` whose id is long enough lie to the right of a position that branches left of `t` -/
+theorem page_right_of' (p w' r q : Path) (Q : PageId) (hQ : Q <+: specPage (p ++ true :: r))
+    (hlen : p.length < 6 * Q.length) (hq : q ≠ []) (hqp : specPage q = Q) :
+    LeftOf (p ++ false :: w') q := by
+  have hbits : pidBits Q <+: (p ++ true :: r) := by
+    have h1 : pidBits Q <+: pidBits (specPage (p ++ true :: r)) := by
+      obtain ⟨u, hu⟩ := hQ
+      rw [← hu, pidBits_append]; exact List.prefix_append _ _
+    rw [pidBits_specPage] at h1
+    exact List.IsPrefix.trans h1 (List.take_prefix _ _)
+  have hQlen : p.length < (pidBits Q).length := by rw [pidBits_length]; exact hlen
+  have hpQ : (p ++ [true]) <+: pidBits Q := by
+    have h2 : (p ++ [true]) <+: (p ++ true :: r) := ⟨r, by simp⟩
+    rcases prefix_comparable h2 hbits with h | h
+    · exact h
+    · have hle := h.length_le
+      have hl2 : (p ++ [true]).length = p.length + 1 := by simp
+      rw [h.eq_of_length (by omega)]
+      exact List.prefix_refl _
+  have hqQ : pidBits Q <+: q := by
+    rw [← hqp, pidBits_specPage]; exact List.take_prefix _ _
+  exact leftOf_of_branch ⟨w', by simp⟩ (List.IsPrefix.trans hpQ hqQ)
+
+/-- the terminals of a walk with a parent page lie in pages strictly below it -/
+def InScope (pp : Option PageId) (steps : List (Step VH)) : Prop :=
+  ∀ P0, pp = some P0 → ∀ s ∈ steps, P0 <+: specPage s.1 ∧ P0 ≠ specPage s.1
+
+theorem inScope_depth {pp : Option PageId} {steps : List (Step VH)} (h : InScope pp steps) (s : Step VH)
+    (hs : s ∈ steps) (hne : s.1 ≠ []) : 6 * k0 pp < s.1.length := by
+  have h1 : 1 ≤ s.1.length := List.length_pos_iff.mpr hne
+  cases hp : pp with
+  | none => simp [k0]; omega
+  | some P0 =>
+    obtain ⟨hpre, hneq⟩ := h P0 hp s hs
+    have hlt : P0.length < (specPage s.1).length := by
+      rcases Nat.lt_or_ge P0.length (specPage s.1).length with hlt | hge
+      · exact hlt
+      · exact absurd (hpre.eq_of_length (Nat.le_antisymm hpre.length_le hge)) hneq
+    rw [specPage_length] at hlt
+    simp only [k0]
+    omega
+
+theorem inScope_ne {pp : Option PageId} {steps : List (Step VH)} (h : InScope pp steps) (P0 : PageId)
+    (hp : pp = some P0) (s : Step VH) (hs : s ∈ steps) : s.1 ≠ [] := by
+  intro e
+  obtain ⟨hpre, hneq⟩ := h P0 hp s hs
+  rw [e] at hpre hneq
+  have : specPage ([] : Path) = [] := rfl
+  rw [this] at hpre hneq
+  exact hneq (List.prefix_nil.mp hpre)
+
+/-! ## the page set of a walk -/
 
 /-- what the walk needs from the page set: `fresh` hands out whole pages, every page on the way to a terminal is there,
 loaded from the hash table, and the materialised slots represent `S` -/
@@ -151,23 +202,23 @@ theorem terminal_not_internal (hs : H.Sound) {S : List (Key × VH)} (hS : KeysOK
 
 /-! ## the invariant of the run -/
 
-structure RunInv (D : Path → Prop) (root : Node) (S S' : List (Key × VH)) (done todo : List (Step VH))
-    (w : Walker Node) (a : TW Node) : Prop where
+structure RunInv (D : Path → Prop) (pp : Option PageId) (root : Node) (S S' : List (Key × VH))
+    (done todo : List (Step VH)) (w : Walker Node) (a : TW Node) : Prop where
   sim : Sim H ps w a
-  par : w.parentPage = none
-  tw : (Idle (flatStore H ps root) (cfgOf H ps none) a ∧ ∀ s ∈ done, s.2.isSome = false) ∨
-       (InvB H D S S' (flatStore H ps root) (cfgOf H ps none) done todo a ∧ done ≠ [])
+  par : w.parentPage = pp
+  tw : (Idle (flatStore H ps root) (cfgOf H ps pp) a ∧ ∀ s ∈ done, s.2.isSome = false) ∨
+       (InvB H D S S' (flatStore H ps root) (cfgOf H ps pp) done todo a ∧ done ≠ [])
   last : match done.getLast? with
          | none => w.lastPosition = none
          | some s => ∃ p, w.lastPosition = some p ∧ p.path = s.1
 
 /-- the prologue of every call: the order assertion holds and `compact_up` simulates -/
-theorem runInv_prologue (hs : H.Sound) {D : Path → Prop} {root : Node} {S S' : List (Key × VH)}
+theorem runInv_prologue (hs : H.Sound) {D : Path → Prop} {pp : Option PageId} {root : Node} {S S' : List (Key × VH)}
     {done todo : List (Step VH)} {s : Step VH}
     (hso : ScriptOK S S' (done ++ s :: todo)) {w : Walker Node} {a : TW Node}
-    (h : RunInv H ps D root S S' done (s :: todo) w a) :
+    (h : RunInv H ps D pp root S S' done (s :: todo) w a) :
     ∃ w1, w.advancePrologue H (posOfPath s.1) = .ok w1 ∧
-      Sim H ps w1 (a.compactUp H (cfgOf H ps none) (some s.1)) ∧ Same w w1 := by
+      Sim H ps w1 (a.compactUp H (cfgOf H ps pp) (some s.1)) ∧ Same w w1 := by
   have hlen := hso.len s (by simp)
   obtain ⟨hpw, hpp⟩ := posOfPath_wf s.1 hlen
   unfold Walker.advancePrologue
@@ -210,9 +261,8 @@ theorem runInv_prologue (hs : H.Sound) {D : Path → Prop} {root : Node} {S S' :
       injection ht with ht
       rw [← ht, hpp]
       rcases h.tw with ⟨hidle, _⟩ | ⟨hinv, _⟩
-      · have h0 : a.pos.length ≤ 0 := hidle.pos
+      · have h0 : a.pos.length ≤ 6 * k0 pp := hidle.pos
         rw [h.par] at hd
-        have hd' : 0 < a.pos.length := hd
         omega
       · obtain ⟨p, w', r, hc, ht'⟩ := hinv.todoP s (List.mem_cons_self ..)
         rw [hc, ht', sharedBits_leftOf]
@@ -226,18 +276,22 @@ theorem getLast?_append_singleton {α : Type} (l : List α) (x : α) : (l ++ [x]
   simp
 
 /-- one call of the script keeps the invariant and does not reach a panic site -/
-theorem runInv_step (hs : H.Sound) {D : Path → Prop} {root : Node} {S S' : List (Key × VH)} (hS : KeysOK S)
-    (hS' : KeysOK S')
+theorem runInv_step (hs : H.Sound) {D : Path → Prop} {pp : Option PageId} {root : Node} {S S' : List (Key × VH)}
+    (hS : KeysOK S) (hS' : KeysOK S')
     {done todo : List (Step VH)} {s : Step VH} (hso : ScriptOK S S' (done ++ s :: todo))
     (hps : PSOK ps (done ++ s :: todo)) (hrep : Rep0 H D S (flatStore H ps root))
-    (hDp : PathsIn D (done ++ s :: todo)) (hD0 : D []) {w : Walker Node} {a : TW Node}
-    (h : RunInv H ps D root S S' done (s :: todo) w a) :
+    (hDp : PathsIn D (done ++ s :: todo)) (hD0 : D []) (hscp : InScope pp (done ++ s :: todo))
+    {w : Walker Node} {a : TW Node}
+    (h : RunInv H ps D pp root S S' done (s :: todo) w a) :
     ∃ w', w.stepM H ps s = .ok w' ∧
-      RunInv H ps D root S S' (done ++ [s]) todo w' (a.step H (cfgOf H ps none) s) := by
+      RunInv H ps D pp root S S' (done ++ [s]) todo w' (a.step H (cfgOf H ps pp) s) := by
   have hlen := hso.len s (by simp)
+  have hsmem : s ∈ done ++ s :: todo := by simp
   obtain ⟨hpw, hpp⟩ := posOfPath_wf s.1 hlen
   obtain ⟨w1, hw1, hs1, hsame1⟩ := runInv_prologue H ps hs hso h
-  have hpar1 : w1.parentPage = none := hsame1.1.trans h.par
+  have hpar1 : w1.parentPage = pp := hsame1.1.trans h.par
+  -- with a parent page the terminal is not the root position
+  have hne_of_parent : ∀ P0, pp = some P0 → s.1 ≠ [] := fun P0 hp => inScope_ne hscp P0 hp s hsmem
   have hlast' : ∀ w' : Walker Node, w'.lastPosition = some (posOfPath s.1) →
       (match (done ++ [s]).getLast? with
        | none => w'.lastPosition = none
@@ -253,21 +307,38 @@ theorem runInv_step (hs : H.Sound) {D : Path → Prop} {root : Node} {S S' : Lis
     unfold Walker.advance
     rw [hw1]
     simp only
-    have hpid : ∃ pid, (posOfPath s.1).pageId = some pid := by
+    have hassert : ∃ pid, (posOfPath s.1).pageId = some pid ∧ w1.assertPageInScope pid = .ok () := by
       by_cases hd : 1 ≤ (posOfPath s.1).depth
-      · exact ⟨_, pageId_eq _ hpw hd⟩
-      · exact ⟨_, pageId_root _ (by omega)⟩
-    obtain ⟨pid, hpid⟩ := hpid
+      · refine ⟨_, pageId_eq _ hpw hd, ?_⟩
+        unfold Walker.assertPageInScope
+        rw [hpar1, hpp]
+        cases hp : pp with
+        | none => rfl
+        | some P0 =>
+          obtain ⟨hpre, hneq⟩ := hscp P0 hp s hsmem
+          simp only
+          rw [if_neg (Ne.symm hneq), if_neg (by
+            rw [Bool.not_eq_true, ← Bool.not_eq_true]
+            intro hh
+            exact hh ((isDescendantOf_iff _ _).mpr hpre))]
+      · refine ⟨_, pageId_root _ (by omega), ?_⟩
+        unfold Walker.assertPageInScope
+        rw [hpar1]
+        cases hp : pp with
+        | none => rfl
+        | some P0 =>
+          exfalso
+          have hne := hne_of_parent P0 hp
+          have : (posOfPath s.1).depth = s.1.length := by rw [← (posOfPath s.1).path_length hpw, hpp]
+          have : 1 ≤ s.1.length := List.length_pos_iff.mpr hne
+          omega
+    obtain ⟨pid, hpid, hass⟩ := hassert
     rw [hpid]
     simp only
-    have hassert : w1.assertPageInScope pid = .ok () := by
-      unfold Walker.assertPageInScope
-      rw [hpar1]
-      cases pid <;> rfl
-    rw [hassert]
+    rw [hass]
     simp only
     refine ⟨_, rfl, ?_⟩
-    have hstep : a.step H (cfgOf H ps none) s = a.compactUp H (cfgOf H ps none) (some s.1) := by
+    have hstep : a.step H (cfgOf H ps pp) s = a.compactUp H (cfgOf H ps pp) (some s.1) := by
       unfold TW.step; rw [hop]; rfl
     refine ⟨?_, hpar1, ?_, hlast' _ rfl⟩
     · rw [hstep]; exact sim_other_fields H ps hs1 w1.siblingStack w1.prevNode (some (posOfPath s.1))
@@ -291,32 +362,36 @@ theorem runInv_step (hs : H.Sound) {D : Path → Prop} {root : Node} {S S' : Lis
     -- what the state after the prologue provides
     have hfacts : (∀ top rest, w1.stack = top :: rest → top.pageId <+: specPage s.1) ∧
         (∀ Q, Q <+: specPage s.1 → (∀ top rest, w1.stack = top :: rest → top.pageId.length < Q.length) →
+          (∀ P0, pp = some P0 → P0.length < Q.length) →
           ∀ q, q ≠ [] → specPage q = Q →
-            (a.compactUp H (cfgOf H ps none) (some s.1)).store q = flatStore H ps root q) ∧
-        (a.compactUp H (cfgOf H ps none) (some s.1)).store s.1 = flatStore H ps root s.1 ∧
+            (a.compactUp H (cfgOf H ps pp) (some s.1)).store q = flatStore H ps root q) ∧
+        (a.compactUp H (cfgOf H ps pp) (some s.1)).store s.1 = flatStore H ps root s.1 ∧
         (s.1 = [] → w1.stack = []) := by
       rcases h.tw with ⟨hidle, _⟩ | ⟨hinv, _⟩
       · rw [tw_compactUp_idle H _ a _ hidle.pos] at hs1 ⊢
         have hst : w1.stack = [] := hs1.stackE.mpr (by
-          have h0 : a.pos.length ≤ 0 := hidle.pos
-          exact Nat.le_trans h0 (Nat.zero_le _))
+          rw [hpar1]; exact hidle.pos)
         refine ⟨?_, ?_, by rw [hidle.store], fun _ => hst⟩
         · intro top rest e; rw [hst] at e; cases e
-        · intro Q _ _ q _ _; rw [hidle.store]
-      · obtain ⟨hinv1, hcomp⟩ := invB_compact H D hs hS' hso hrep (cfgOf H ps none) a hinv
+        · intro Q _ _ _ q _ _; rw [hidle.store]
+      · obtain ⟨hinv1, hcomp⟩ := invB_compact H D hs hS' hso hrep (cfgOf H ps pp) a hinv
         obtain ⟨p, w', r, hc, ht⟩ := hinv1.todoP s (List.mem_cons_self ..)
-        have hsb : sharedBits (a.compactUp H (cfgOf H ps none) (some s.1)).pos s.1 = p.length := by
+        have hsb : sharedBits (a.compactUp H (cfgOf H ps pp) (some s.1)).pos s.1 = p.length := by
           rw [hc, ht]; exact sharedBits_leftOf p w' r
-        have hw'nil : w' = [] := by
-          rw [hsb, hc] at hcomp
-          have htop0 : (cfgOf H ps none).top = 0 := rfl
-          have hl : (p ++ false :: w').length = p.length + 1 + w'.length := by simp; omega
-          rw [htop0, hl] at hcomp
-          exact List.eq_nil_of_length_eq_zero (by omega)
-        subst hw'nil
-        have hleft : LeftOf (a.compactUp H (cfgOf H ps none) (some s.1)).pos s.1 := ⟨p, [], r, hc, ht⟩
+        have htopdef : (cfgOf H ps pp).top = 6 * k0 pp := rfl
+        have hl : (p ++ false :: w').length = p.length + 1 + w'.length := by simp; omega
+        rw [hsb, hc, htopdef, hl] at hcomp
+        have hleft : LeftOf (a.compactUp H (cfgOf H ps pp) (some s.1)).pos s.1 := ⟨p, w', r, hc, ht⟩
         refine ⟨?_, ?_, hinv1.right _ hleft, ?_⟩
         · intro top rest e
+          -- the stack is not empty: the position is exactly `p ++ [false]`
+          have hgt : 6 * k0 pp < (p ++ false :: w').length := by
+            rcases Nat.lt_or_ge (6 * k0 pp) (p ++ false :: w').length with hlt | hge
+            · exact hlt
+            · have := hs1.stackE.mpr (by rw [hpar1, hc]; exact hge)
+              rw [this] at e; cases e
+          have hw'nil : w' = [] := List.eq_nil_of_length_eq_zero (by omega)
+          subst hw'nil
           rw [hs1.stackT top rest e, hc, ht]
           have : specPage (p ++ [false]) = specPage (p ++ [true]) := by
             have := specPage_sibPath (p ++ [true])
@@ -324,41 +399,67 @@ theorem runInv_step (hs : H.Sound) {D : Path → Prop} {root : Node} {S S' : Lis
             simpa using this
           rw [this]
           exact specPage_mono _ _ ⟨r, by simp⟩
-        · intro Q hQ hQl q hq hqp
+        · intro Q hQ hQl hQp q hq hqp
           apply hinv1.right
-          obtain ⟨top, rest, hst, htop⟩ := sim_stack_cons H ps hs1 (by
-            rw [hpar1, hc]; simp [k0])
-          have hl := hQl top rest hst
-          rw [htop, hc] at hl
           rw [hc]
           rw [ht] at hQ
-          exact page_right_of p r q Q hQ hl hq hqp
+          apply page_right_of' p w' r q Q hQ ?_ hq hqp
+          -- the id of `Q` is long enough
+          rcases Nat.lt_or_ge (6 * k0 pp) (p ++ false :: w').length with hlt | hge
+          · obtain ⟨top, rest, hst, htop⟩ := sim_stack_cons H ps hs1 (by rw [hpar1, hc]; exact hlt)
+            have hw'nil : w' = [] := List.eq_nil_of_length_eq_zero (by omega)
+            subst hw'nil
+            have hl' := hQl top rest hst
+            rw [htop, hc] at hl'
+            have hsl : (specPage (p ++ [false])).length = p.length / 6 := by
+              rw [specPage_length]; simp
+            omega
+          · cases hp : pp with
+            | none =>
+              rw [hp] at hge
+              simp [k0] at hge
+            | some P0 =>
+              have := hQp P0 hp
+              rw [hp] at hge
+              simp only [k0] at hge
+              omega
         · intro e
           rw [e] at ht
           have := congrArg List.length ht
           simp at this
     obtain ⟨hF1, hF2, hF3, hF4⟩ := hfacts
-    obtain ⟨a1, ha1⟩ : ∃ a1, a1 = a.compactUp H (cfgOf H ps none) (some s.1) := ⟨_, rfl⟩
+    obtain ⟨a1, ha1⟩ : ∃ a1, a1 = a.compactUp H (cfgOf H ps pp) (some s.1) := ⟨_, rfl⟩
     rw [← ha1] at hs1 hF2 hF3
     -- `build_stack`
     have hs1' := sim_other_fields H ps hs1 w1.siblingStack w1.prevNode (some (posOfPath s.1))
     have hbuild : ∃ w2, ({ w1 with lastPosition := some (posOfPath s.1) } : Walker Node).buildStack H ps (posOfPath s.1)
           = .ok w2 ∧
         Sim H ps w2 ({ a1 with pos := s.1 } : TW Node) ∧
-        w2.parentPage = none ∧ w2.lastPosition = some (posOfPath s.1) := by
+        w2.parentPage = pp ∧ w2.lastPosition = some (posOfPath s.1) := by
       by_cases hne : s.1 = []
-      · obtain ⟨w2, hw2, hs2, hsame2, _⟩ := sim_buildStack_root H ps hs1' (posOfPath s.1) hpw (by rw [hpp]; exact hne)
-          (hF4 hne) hpar1
+      · have hppn : pp = none := by
+          cases hp : pp with
+          | none => rfl
+          | some P0 => exact absurd hne (hne_of_parent P0 hp)
+        obtain ⟨w2, hw2, hs2, hsame2, _⟩ := sim_buildStack_root H ps hs1' (posOfPath s.1) hpw (by rw [hpp]; exact hne)
+          (hF4 hne) (by rw [← hppn]; exact hpar1)
         refine ⟨w2, hw2, ?_, hsame2.1.trans hpar1, hsame2.2.1⟩
         rw [hne]; exact hs2
       · obtain ⟨w2, hw2, hs2, hsame2, _⟩ := sim_buildStack H ps hs1' (posOfPath s.1) hpw (by rw [hpp]; exact hne)
-          (by intro pp hp; rw [show ({ w1 with lastPosition := some (posOfPath s.1) } : Walker Node).parentPage
-                = w1.parentPage from rfl, hpar1] at hp; cases hp)
+          (by
+            intro P0 hp
+            rw [show ({ w1 with lastPosition := some (posOfPath s.1) } : Walker Node).parentPage
+                = w1.parentPage from rfl, hpar1] at hp
+            rw [hpp]
+            exact hscp P0 hp s hsmem)
           (by intro top rest e; rw [hpp]; exact hF1 top rest e)
           (by
-            intro Q hQ hQl _
+            intro Q hQ hQl hQp
             rw [hpp] at hQ
-            exact loadable_of_psok H ps root hps s (by simp) hne Q hQ _ (hF2 Q hQ hQl))
+            exact loadable_of_psok H ps root hps s (by simp) hne Q hQ _
+              (hF2 Q hQ hQl (by intro P0 hp; exact hQp P0 (by
+                rw [show ({ w1 with lastPosition := some (posOfPath s.1) } : Walker Node).parentPage
+                  = w1.parentPage from rfl, hpar1]; exact hp))))
         rw [hpp] at hs2
         exact ⟨w2, hw2, hs2, hsame2.1.trans hpar1, hsame2.2.1⟩
     obtain ⟨w2, hw2, hs2, hpar2, hlast2⟩ := hbuild
@@ -373,8 +474,13 @@ theorem runInv_step (hs : H.Sound) {D : Path → Prop} {root : Node} {S S' : Lis
       (by
         show (s.1 = [] ∧ w2.parentPage = none) ∨ 6 * k0 w2.parentPage < s.1.length
         by_cases hne : s.1 = []
-        · exact Or.inl ⟨hne, hpar2⟩
-        · right; rw [hpar2]; simp [k0]; exact List.length_pos_iff.mpr hne)
+        · left
+          refine ⟨hne, ?_⟩
+          rw [hpar2]
+          cases hp : pp with
+          | none => rfl
+          | some P0 => exact absurd hne (hne_of_parent P0 hp)
+        · right; rw [hpar2]; exact inScope_depth hscp s hsmem hne)
       (by
         show H.kind (a1.store s.1) ≠ .internal
         rw [hF3]
@@ -383,8 +489,8 @@ theorem runInv_step (hs : H.Sound) {D : Path → Prop} {root : Node} {S S' : Lis
     have hw3' : w2.replaceTerminal H ps (sub S' s.1) = .ok w3 := hw3
     rw [hw3']
     refine ⟨w3, rfl, ?_⟩
-    have hstep : a.step H (cfgOf H ps none) s =
-        ({ a1 with pos := s.1 } : TW Node).replaceTerminal H (cfgOf H ps none) (sub S' s.1) := by
+    have hstep : a.step H (cfgOf H ps pp) s =
+        ({ a1 with pos := s.1 } : TW Node).replaceTerminal H (cfgOf H ps pp) (sub S' s.1) := by
       unfold TW.step; rw [hop]; simp only
       unfold TW.advanceAndReplace; rw [hops, ha1]
     refine ⟨?_, hsame3.1.trans hpar2, ?_, hlast' _ (hsame3.2.1.trans hlast2)⟩
